@@ -21,6 +21,10 @@ PARTIAL = [
     "executions are pairwise distinct and each is a first computation or justified by an observed dependency whose "
     "from-scratch value changed (Shape p); the other C03 theorems keep the premise '= .ok', which C01's totality "
     "theorems discharge for well-formed histories (HistOK).",
+    "core_history_exec_justified_partial: along the whole run of a HistOK history every reported executor invocation of "
+    "every round is justified (Just) in the state where the round began, and invocations between two sessions are "
+    "pairwise distinct across rounds (Shape p). Executions by refresh inside sessions are covered by "
+    "core_refresh_reexecutes_all_externals, not by ExecOK.",
 ]
 ASSUMPTIONS = c01.ASSUMPTIONS + ["no cancellation (the property excludes it)"]
 TRUSTED_EXTRA = c01.TRUSTED_EXTRA
